@@ -103,6 +103,12 @@ func (cfg *Config) VerifyConfig(schema base.LogSchema) error {
 		return fmt.Errorf(".serialization.environmentFields is unspecified")
 	}
 
+	for _, field := range cfg.Serialization.EnvironmentFields {
+		if _, err := schema.CreateFieldLocator(field); err != nil {
+			return fmt.Errorf(".serialization.environmentFields: field is invalid: %w", err)
+		}
+	}
+
 	for field, rewriteConfig := range cfg.Serialization.RewriteFields {
 		if _, err := schema.CreateFieldLocator(field); err != nil {
 			return fmt.Errorf(".serialization.rewriteFields[%s]: Field is invalid: %w", field, err)
